@@ -971,7 +971,7 @@ def adapt_typehints(
             if extra_keys:
                 raise_unexpected_value(f"Unexpected keys: {extra_keys}", val)
             for k, v in val.items():
-                val[k] = adapt_typehints(v, typehint.__annotations__[k], **adapt_kwargs)
+                val[k] = adapt_typehints(v, typehint.__annotations__[k], **{**adapt_kwargs, "orig_val": None})
         if typehint_origin is MappingProxyType and not serialize:
             val = MappingProxyType(val)
         elif typehint_origin is OrderedDict:
